@@ -243,7 +243,8 @@ def main(ctx):
                 dflt = 0   # the sanctioned difference: default_value is not applied to memories
             iter_seed = None if k % 4 == 0 else rng.randrange(1 << 30)
             ok = c01.one_case(ctx, d, steps, regmap, memmap, dflt, iter_seed,
-                              '%s#%d' % (simcls.__name__, k), simcls=simcls, check_tie=(simcls is pyrtl.FastSimulation))
+                              '%s#%d' % (simcls.__name__, k), simcls=simcls, check_tie=(simcls is pyrtl.FastSimulation),
+                              foreign=(k % 3 == 1))
             desc = d.describe()
             agree[simcls.__name__] += ok
             total[simcls.__name__] += 1
